@@ -149,6 +149,18 @@ def gen_cases(rng, tier):
                 h = ['t3'] + (['d31', 't4'] if who == 31 else []) + ['d30', 't%d' % off, 'r%d' % who, 't2', 'r%d' % who, 't60', 'u30', 'u31', 't100', 'q']
                 cases.append({'id': 'c08-osrep-%d' % ri, 'cfg': cfg, 'hist': h, 'sub': 'ksim', 'tags': {'mode': 'os-repeat-during-macro', 'offset': off}})
                 ri += 1
+    # "precisely the items it spells out, modifier groups included": a modifier prefix applied to a list held in a variable
+    # (S-$v) is the same group as the list written in place, and the items after it still play; twins compared event by event
+    vi = 0
+    for body in ('S-$hi x 10 y', 'C-S-$hi z', 'x S-$hi 20 C-$hi y', 'S-$hi', 'S-$hi 30 x', 'S-$hi C-x y', 'A-$hi S-(x y) z', 'S-$one x y'):
+        for form in ('macro', 'macro-release-cancel'):
+            cfgv = '(defvar hi (h i) one (j))\n(defsrc a s)\n(deflayer l0 (%s %s) b)' % (form, body)
+            cfgi = '(defsrc a s)\n(deflayer l0 (%s %s) b)' % (form, body.replace('$hi', '(h i)').replace('$one', '(j)'))
+            h = ['t3', 'd30', 't150', 'u30', 't100', 'q']
+            cases.append({'id': 'c08-var-%d' % vi, 'cfg': cfgv, 'hist': h, 'sub': 'ksim', 'twin_inline': 'c08-var-%d.i' % vi,
+                          'tags': {'mode': 'modifier-prefix-on-list-variable'}})
+            cases.append({'id': 'c08-var-%d.i' % vi, 'cfg': cfgi, 'hist': h, 'sub': 'ksim', 'tags': {'mode': 'modifier-prefix-on-list-inline'}})
+            vi += 1
     return cases
 
 
@@ -174,6 +186,22 @@ def post(all_results, run_impl, rng, tier, stats):
             out.append((c, it, mt, 'a key pressed %d ms after the macro started (its last key would go down at tick %d) did not cancel it: '
                                    'the last key %s was still played' % (cc['off'], t_last[0], cc['last_key'])))
     stats['cancel_window_judged'] = n
+    nt = 0
+    for c, it, mt in all_results:
+        tw = c.get('twin_inline')
+        if not tw:
+            continue
+        other = by.get(tw)
+        nt += 1
+        a = [l for l in (it or []) if l.startswith(('@', 'PARSE'))]
+        b = [l for l in (other or []) if l.startswith(('@', 'PARSE'))]
+        if a != b:
+            k = 0
+            while k < min(len(a), len(b)) and a[k] == b[k]:
+                k += 1
+            out.append((c, it, mt, 'a macro with a modifier prefix on a list variable plays differently from the same macro with the list '
+                                   'written in place: with the variable [%s], in place [%s]' % (a[k][:80] if k < len(a) else '<end>', b[k][:80] if k < len(b) else '<end>')))
+    stats['variable_twins'] = nt
     return out
 
 
